@@ -14,7 +14,8 @@ From Cedar Require Import Base.Int64 Base.Json Base.Utf8 Base.Utf8Enc Lang.Value
   Impl.Duration Impl.Datetime Impl.IPAddr Impl.ValueJson Impl.Tokenizer Impl.Parser Impl.Printer Impl.PolicyJson Lang.RoundTrip.
 From Cedar Require Import Proofs.ValueProofs Proofs.ValueJsonProofs Proofs.PolicyJsonProofs Proofs.ParserRoundTrip Proofs.NormMeaning
   Proofs.DecoderTotal.
-From Cedar Require Proofs.EvalSpecProofs.
+From Cedar Require Proofs.EvalSpecProofs Proofs.PartialProofs.
+Set Warnings "-unused-intro-pattern".
 Local Open Scope Z_scope.
 
 (* ------------------------------------------------------------------------------------------ *)
@@ -184,3 +185,775 @@ Section PolicySets.
         * rewrite rec_of_list_get_gen in E. apply cc_rec_get_none in E. exfalso. apply E. rewrite map_rev. apply -> in_rev. exact Hin.
   Qed.
 End PolicySets.
+
+(* ------------------------------------------------------------------------------------------ *)
+(* B. The two normal forms                                                                      *)
+(* ------------------------------------------------------------------------------------------ *)
+
+Lemma cc_nth_Forall {A} (P : A -> Prop) (L : list A) d : Forall P L -> P d -> forall i, P (nth i L d).
+Proof. intros HF Hd. induction HF as [|x L Hx _ IH]; intros [|i]; cbn [nth]; auto. Qed.
+
+Lemma cc_map_fix {A} (f : A -> A) (l : list A) : Forall (fun x => f x = x) l -> map f l = l.
+Proof. intros HF. induction HF as [|x l Hx _ IH]; [reflexivity|]. cbn [map]. rewrite Hx, IH. reflexivity. Qed.
+
+Lemma cc_mapv_fix {A} (f : A -> A) (l : list (str * A)) : Forall (fun kv => f (snd kv) = snd kv) l -> mapv f l = l.
+Proof.
+  intros HF. induction HF as [|[key x] l Hx _ IH]; [reflexivity|]. rewrite mapv_cons. cbn [fst snd] in *. rewrite Hx, IH. reflexivity.
+Qed.
+
+(* every record VALUE inside a literal lists its keys in increasing order (as a Go map prints them; part of wf_value and of json_safe) *)
+Fixpoint recs_sorted (v : value) : bool :=
+  match v with
+  | VSet l => (fix go (l : list value) : bool := match l with [] => true | x :: r => recs_sorted x && go r end) l
+  | VRecord kvs => keys_sorted kvs &&
+                   (fix go (l : list (str * value)) : bool := match l with [] => true | (_, x) :: r => recs_sorted x && go r end) kvs
+  | _ => true
+  end.
+
+Lemma recs_sorted_set l : recs_sorted (VSet l) = forallb recs_sorted l.
+Proof. cbn [recs_sorted]. induction l as [|x l IH]; [reflexivity|]. cbn [forallb]. rewrite <- IH. reflexivity. Qed.
+Lemma recs_sorted_record l : recs_sorted (VRecord l) = keys_sorted l && forallb (fun kv => recs_sorted (snd kv)) l.
+Proof. cbn [recs_sorted]. f_equal. induction l as [|[key x] l IH]; [reflexivity|]. cbn [forallb snd]. rewrite <- IH. reflexivity. Qed.
+
+Fixpoint lit_sorted (e : expr) : bool :=
+  let fix all (l : list expr) : bool := match l with [] => true | x :: r => lit_sorted x && all r end in
+  let fix allkv (l : list (str * expr)) : bool := match l with [] => true | (_, x) :: r => lit_sorted x && allkv r end in
+  match e with
+  | ELit v => recs_sorted v
+  | EVar _ | EPartialError _ => true
+  | ENot a | ENeg a | EIsEmpty a | EAccess a _ | EHas a _ | EIs a _ | ELike a _ => lit_sorted a
+  | EAnd a b | EOr a b | EAdd a b | ESub a b | EMul a b | EEq a b | ENe a b | ELt a b | ELe a b | EGt a b | EGe a b
+  | EIn a b | EContains a b | EContainsAll a b | EContainsAny a b | EGetTag a b | EHasTag a b | EIsIn a _ b => lit_sorted a && lit_sorted b
+  | EIf c t f => lit_sorted c && lit_sorted t && lit_sorted f
+  | ESet es => all es
+  | ERecord kvs => allkv kvs
+  | ECall _ args => all args
+  end.
+
+Lemma lit_sorted_all es :
+  (fix all (l : list expr) : bool := match l with [] => true | x :: r => lit_sorted x && all r end) es = forallb lit_sorted es.
+Proof. induction es as [|x es IH]; [reflexivity|]. cbn [forallb]. rewrite <- IH. reflexivity. Qed.
+Lemma lit_sorted_set es : lit_sorted (ESet es) = forallb lit_sorted es.
+Proof. cbn [lit_sorted]. apply lit_sorted_all. Qed.
+Lemma lit_sorted_call n es : lit_sorted (ECall n es) = forallb lit_sorted es.
+Proof. cbn [lit_sorted]. apply lit_sorted_all. Qed.
+Lemma lit_sorted_record kvs : lit_sorted (ERecord kvs) = forallb (fun kv => lit_sorted (snd kv)) kvs.
+Proof. cbn [lit_sorted]. induction kvs as [|[key x] kvs IH]; [reflexivity|]. cbn [forallb snd]. rewrite <- IH. reflexivity. Qed.
+
+Definition policy_lit_sorted (p : policy) : bool := forallb (fun c : bool * expr => lit_sorted (snd c)) (p_conds p).
+
+Lemma wf_recs_sorted : forall v, wf_value v = true -> recs_sorted v = true.
+Proof.
+  apply (value_ind' (fun v => wf_value v = true -> recs_sorted v = true)); try (intros; reflexivity).
+  - intros l IH Hw. rewrite wf_value_set in Hw. apply andb_true_iff in Hw. destruct Hw as [_ Hw].
+    rewrite recs_sorted_set. rewrite forallb_forall in *. rewrite Forall_forall in IH. intros x Hx. apply IH; auto.
+  - intros l IH Hw. rewrite wf_value_record in Hw. apply andb_true_iff in Hw. destruct Hw as [Hk Hw].
+    rewrite recs_sorted_record, Hk. cbn [andb]. rewrite forallb_forall in *. rewrite Forall_forall in IH. intros x Hx. apply IH; auto.
+Qed.
+
+(* ---- plain ASCII strings are well-formed string literals ---- *)
+Lemma valid_utf8_fuel_ascii : forall s f, (List.length s <= f)%nat -> Forall (fun c => 0 <= c < 128) s -> valid_utf8_fuel f s = true.
+Proof.
+  induction s as [|c s IH]; intros f Hf HF; [destruct f; reflexivity|].
+  destruct f as [|f]; [cbn [List.length] in Hf; lia|].
+  inversion HF as [|x xs Hc HF']; subst. cbn [valid_utf8_fuel]. unfold decode_rune.
+  replace (c <? 128) with true by (symmetry; apply Z.ltb_lt; lia).
+  replace (c =? rune_error) with false by (symmetry; apply Z.eqb_neq; unfold rune_error; lia).
+  cbn [andb skipn]. apply IH; [cbn [List.length] in Hf; lia | exact HF'].
+Qed.
+
+Lemma plain_str_ok2 s : Forall ParserRoundTrip.plain s -> str_ok2 s = true.
+Proof.
+  intros HF. unfold str_ok2, str_ok, byte_str. apply andb_true_iff. split.
+  - apply forallb_forall. rewrite Forall_forall in HF. intros b Hb. destruct (HF b Hb) as [Hr _].
+    apply andb_true_iff. split; [apply Z.leb_le | apply Z.ltb_lt]; lia.
+  - unfold valid_utf8. apply valid_utf8_fuel_ascii; [lia|]. eapply Forall_impl; [|exact HF].
+    intros c [Hr _]. lia.
+Qed.
+
+(* ---- key lists ---- *)
+Fixpoint dk_go {A} (l : list (str * A)) (seen : list str) : bool :=
+  match l with [] => true | (key, _) :: r => negb (existsb (str_eqb key) seen) && dk_go r (key :: seen) end.
+
+Lemma distinct_keys_go {A} (l : list (str * A)) : distinct_keys l = dk_go l [].
+Proof.
+  unfold distinct_keys. generalize (@nil str) as seen.
+  induction l as [|[key v] l IH]; intros seen; [reflexivity|]. cbn [dk_go]. rewrite <- IH. reflexivity.
+Qed.
+
+Lemma dk_go_sorted {A} : forall (l : list (str * A)) seen, keys_sorted l = true ->
+  (forall s kv, In s seen -> In kv l -> str_eqb (fst kv) s = false) -> dk_go l seen = true.
+Proof.
+  induction l as [|[key v] l IH]; intros seen Hs Hseen; [reflexivity|].
+  cbn [dk_go]. apply andb_true_iff. split.
+  - apply negb_true_iff. destruct (existsb (str_eqb key) seen) eqn:E; [|reflexivity].
+    apply existsb_exists in E. destruct E as (s & Hin & Heq).
+    pose proof (Hseen s (key, v) Hin (or_introl eq_refl)) as X. cbn [fst] in X. congruence.
+  - pose proof (vj_sorted_all_lt _ _ _ Hs) as HF. rewrite Forall_forall in HF.
+    apply keys_sorted_cons in Hs. destruct Hs as [_ Hs].
+    apply IH; [exact Hs|]. intros s kv [<-|Hin] Hkv.
+    + specialize (HF kv Hkv). apply str_eqb_neq. intros E. rewrite E, str_ltb_irrefl in HF. discriminate.
+    + apply (Hseen s kv Hin). right. exact Hkv.
+Qed.
+
+Lemma distinct_keys_sorted {A} (l : list (str * A)) : keys_sorted l = true -> distinct_keys l = true.
+Proof. intros Hs. rewrite distinct_keys_go. apply dk_go_sorted; [exact Hs|]. intros s kv []. Qed.
+
+Lemma distinct_keys_mapv {A B} (g : A -> B) (l : list (str * A)) : distinct_keys (mapv g l) = distinct_keys l.
+Proof. rewrite !distinct_keys_fresh, mapv_keys. reflexivity. Qed.
+
+Lemma forallb_keys_mapv {A B} (g : A -> B) (q : str -> bool) (l : list (str * A)) :
+  forallb (fun kv : str * B => q (fst kv)) (mapv g l) = forallb (fun kv : str * A => q (fst kv)) l.
+Proof. induction l as [|kv l IH]; [reflexivity|]. rewrite mapv_cons. cbn [forallb fst]. rewrite IH. reflexivity. Qed.
+
+Lemma forallb_vals_mapv {A B} (g : A -> B) (q : B -> bool) (l : list (str * A)) :
+  forallb (fun kv : str * B => q (snd kv)) (mapv g l) = forallb (fun kv : str * A => q (g (snd kv))) l.
+Proof. induction l as [|kv l IH]; [reflexivity|]. rewrite mapv_cons. cbn [forallb snd]. rewrite IH. reflexivity. Qed.
+
+Lemma forallb_rec_of_list {A} (q : str * A -> bool) (l : list (str * A)) : forallb q l = true -> forallb q (rec_of_list l) = true.
+Proof.
+  intros H. apply forallb_forall. apply Forall_forall. apply (EvalSpecProofs.rec_of_list_Forall A (fun kv => q kv = true)).
+  apply Forall_forall. apply forallb_forall. exact H.
+Qed.
+
+(* ---- like patterns: what the text syntax can write is in NewPattern's normal form ---- *)
+Lemma text_pat_tail_canon : forall r, RoundTrip.pat_tail_ok r = true -> PolicyJsonProofs.pat_tail_ok r = true.
+Proof.
+  induction r as [|[w l] r IH]; [reflexivity|]. cbn [RoundTrip.pat_tail_ok PolicyJsonProofs.pat_tail_ok].
+  rewrite !andb_true_iff. intros [[[Hw _] Hl] Hr]. repeat split; [exact Hw | | apply IH; exact Hr].
+  destruct l, r; try reflexivity. discriminate.
+Qed.
+
+Lemma text_pat_canon p : pat_ok p = true -> pat_canon p = true.
+Proof.
+  destruct p as [|[w l] r]; [discriminate|]. cbn [pat_ok pat_canon]. rewrite !andb_true_iff. intros [[_ Hl] Hr].
+  apply text_pat_tail_canon in Hr. destruct w; [|exact Hr].
+  cbn [PolicyJsonProofs.pat_tail_ok andb]. rewrite Hr, andb_true_r. destruct l, r; try reflexivity.
+  destruct (negb true && false) eqn:E; discriminate.
+Qed.
+
+Lemma text_pat_norm p : pat_ok p = true -> norm_pat p = p.
+Proof. destruct p; [discriminate | reflexivity]. Qed.
+
+(* ---- scopes ---- *)
+Lemma principal_scope_okj s : principal_scope_ok s = true -> scope_okj false s = true.
+Proof. destruct s; try reflexivity. discriminate. Qed.
+Lemma action_scope_okj s : action_scope_ok s = true -> scope_okj true s = true.
+Proof. destruct s; try reflexivity; discriminate. Qed.
+
+
+Section NormalForms.
+  Variable set_order : list value -> list nat.
+  Variable print_ip : bool -> Z -> Z -> str.
+
+  Notation nv := (norm_value set_order print_ip).
+  Notation nm := (norm set_order print_ip).
+  Notation nj := (normj print_ip).
+  Notation nmp := (norm_policy set_order print_ip).
+  Notation njp := (normj_policy print_ip).
+
+  Lemma cc_nv_set l : nv (VSet l) = ESet (map (fun i => nth i (map nv l) (ELit (VBool false))) (set_order l)).
+  Proof. cbn [norm_value]. rewrite pj_fix_map. reflexivity. Qed.
+  Lemma cc_nv_record l : nv (VRecord l) = ERecord (mapv nv l).
+  Proof. cbn [norm_value]. rewrite pj_fix_mapv. reflexivity. Qed.
+  Lemma cc_nm_set es : nm (ESet es) = ESet (map nm es).
+  Proof. cbn [norm]. rewrite pj_fix_map. reflexivity. Qed.
+  Lemma cc_nm_call n es : nm (ECall n es) = ECall n (map nm es).
+  Proof. cbn [norm]. rewrite pj_fix_map. reflexivity. Qed.
+  Lemma cc_nm_record kvs : nm (ERecord kvs) = ERecord (mapv nm kvs).
+  Proof. cbn [norm]. rewrite pj_fix_mapv. reflexivity. Qed.
+
+  (* ---- the rendering of a literal value is a fixed point of both normal forms ---- *)
+  Lemma nth_fixed (f : expr -> expr) (L : list expr) (o : list nat) :
+    Forall (fun x => f x = x) L -> f (ELit (VBool false)) = ELit (VBool false) ->
+    map f (map (fun i => nth i L (ELit (VBool false))) o) = map (fun i => nth i L (ELit (VBool false))) o.
+  Proof.
+    intros HF Hd. apply cc_map_fix. apply Forall_forall. intros x Hx. apply in_map_iff in Hx. destruct Hx as (i & <- & _).
+    apply (cc_nth_Forall (fun x => f x = x)); assumption.
+  Qed.
+
+  Lemma norm_norm_value : forall v, nm (nv v) = nv v.
+  Proof.
+    apply (value_ind' (fun v => nm (nv v) = nv v)); try (intros; reflexivity).
+    - intros l IH. rewrite cc_nv_set, cc_nm_set. f_equal. apply nth_fixed; [|reflexivity].
+      apply Forall_forall. intros x Hx. apply in_map_iff in Hx. destruct Hx as (y & <- & Hy). rewrite Forall_forall in IH. auto.
+    - intros l IH. rewrite cc_nv_record, cc_nm_record. f_equal. rewrite mapv_mapv. apply mapv_ext_Forall. exact IH.
+  Qed.
+
+  Lemma normj_norm_value : forall v, recs_sorted v = true -> nj (nv v) = nv v.
+  Proof.
+    apply (value_ind' (fun v => recs_sorted v = true -> nj (nv v) = nv v)); try (intros; reflexivity).
+    - intros l IH Hs. rewrite recs_sorted_set in Hs. rewrite cc_nv_set, normj_set. f_equal. apply nth_fixed; [|reflexivity].
+      apply Forall_forall. intros x Hx. apply in_map_iff in Hx. destruct Hx as (y & <- & Hy).
+      rewrite Forall_forall in IH. rewrite forallb_forall in Hs. auto.
+    - intros l IH Hs. rewrite recs_sorted_record in Hs. apply andb_true_iff in Hs. destruct Hs as [Hk Hs].
+      rewrite cc_nv_record, normj_record. f_equal. rewrite mapv_mapv.
+      rewrite (mapv_ext_Forall (fun x => nj (nv x)) nv).
+      + apply vj_rec_of_list_sorted_id. rewrite cc_keys_sorted_mapv. exact Hk.
+      + rewrite Forall_forall in *. rewrite forallb_forall in Hs. intros kv Hkv. auto.
+  Qed.
+
+  Lemma lit_sorted_norm_value : forall v, lit_sorted (nv v) = true.
+  Proof.
+    apply (value_ind' (fun v => lit_sorted (nv v) = true)); try (intros; reflexivity).
+    - intros l IH. rewrite cc_nv_set, lit_sorted_set. apply forallb_forall. intros x Hx. apply in_map_iff in Hx.
+      destruct Hx as (i & <- & _). apply (cc_nth_Forall (fun x => lit_sorted x = true)); [|reflexivity].
+      apply Forall_forall. intros x Hx. apply in_map_iff in Hx. destruct Hx as (y & <- & Hy). rewrite Forall_forall in IH. auto.
+    - intros l IH. rewrite cc_nv_record, lit_sorted_record. apply forallb_forall. intros kv Hkv. apply in_map_iff in Hkv.
+      destruct Hkv as (kv0 & <- & Hkv0). cbn [snd]. rewrite Forall_forall in IH. auto.
+  Qed.
+
+  (* ---- idempotence of the text normal form ---- *)
+  Theorem norm_idempotent : forall e, nm (nm e) = nm e.
+  Proof.
+    apply (expr_ind' (fun e => nm (nm e) = nm e)); try (intros; cbn [norm]; congruence).
+    - intros v. apply norm_norm_value.
+    - intros es IH. rewrite !cc_nm_set, map_map. f_equal. apply pj_map_ext_Forall. exact IH.
+    - intros kvs IH. rewrite !cc_nm_record, mapv_mapv. f_equal. apply mapv_ext_Forall. exact IH.
+    - intros n es IH. rewrite !cc_nm_call, map_map. f_equal. apply pj_map_ext_Forall. exact IH.
+  Qed.
+
+  (* the text normal form has no literal of record type at all *)
+  Theorem lit_sorted_norm : forall e, lit_sorted (nm e) = true.
+  Proof.
+    apply (expr_ind' (fun e => lit_sorted (nm e) = true));
+      try (intros; cbn [norm lit_sorted]; repeat (apply andb_true_iff; split); assumption).
+    - intros v. apply lit_sorted_norm_value.
+    - intros x. reflexivity.
+    - intros es IH. rewrite cc_nm_set, lit_sorted_set. apply forallb_forall. intros x Hx. apply in_map_iff in Hx.
+      destruct Hx as (y & <- & Hy). rewrite Forall_forall in IH. auto.
+    - intros kvs IH. rewrite cc_nm_record, lit_sorted_record. apply forallb_forall. intros x Hx. apply in_map_iff in Hx.
+      destruct Hx as (y & <- & Hy). cbn [snd]. rewrite Forall_forall in IH. auto.
+    - intros n es IH. rewrite cc_nm_call, lit_sorted_call. apply forallb_forall. intros x Hx. apply in_map_iff in Hx.
+      destruct Hx as (y & <- & Hy). rewrite Forall_forall in IH. auto.
+    - intros kd. reflexivity.
+  Qed.
+
+  (* ---- the two normal forms commute ---- *)
+  Theorem normj_norm_commute : forall e, lit_sorted e = true -> nj (nm e) = nm (nj e).
+  Proof.
+    apply (expr_ind' (fun e => lit_sorted e = true -> nj (nm e) = nm (nj e)));
+      try (intros a b IHa IHb Hs; cbn [lit_sorted] in Hs; apply andb_true_iff in Hs; destruct Hs as [Ha Hb];
+           cbn [norm normj]; rewrite (IHa Ha), (IHb Hb); reflexivity);
+      try (intros a IHa Hs; cbn [lit_sorted] in Hs; cbn [norm normj]; rewrite (IHa Hs); reflexivity);
+      try (intros a x IHa Hs; cbn [lit_sorted] in Hs; cbn [norm normj]; rewrite (IHa Hs); reflexivity).
+    - intros v Hs. cbn [lit_sorted] in Hs. destruct v as [b|z|s|ty id|l|kvs|z|z|z|v6 a p]; try reflexivity.
+      + exact (normj_norm_value (VSet l) Hs).
+      + exact (normj_norm_value (VRecord kvs) Hs).
+    - intros x _. reflexivity.
+    - intros a ty b IHa IHb Hs. cbn [lit_sorted] in Hs. apply andb_true_iff in Hs. destruct Hs as [Ha Hb].
+      cbn [norm normj]. rewrite (IHa Ha), (IHb Hb). reflexivity.
+    - intros c t f IHc IHt IHf Hs. cbn [lit_sorted] in Hs. rewrite !andb_true_iff in Hs. destruct Hs as [[Hc Ht] Hf].
+      cbn [norm normj]. rewrite (IHc Hc), (IHt Ht), (IHf Hf). reflexivity.
+    - intros es IH Hs. rewrite lit_sorted_set in Hs. rewrite cc_nm_set, !normj_set, cc_nm_set, !map_map. f_equal.
+      apply pj_map_ext_Forall. rewrite Forall_forall in *. rewrite forallb_forall in Hs. intros x Hx. auto.
+    - intros kvs IH Hs. rewrite lit_sorted_record in Hs. rewrite cc_nm_record, !normj_record, cc_nm_record. f_equal.
+      rewrite <- rec_of_list_mapv, !mapv_mapv. f_equal.
+      apply mapv_ext_Forall. rewrite Forall_forall in *. rewrite forallb_forall in Hs. intros x Hx. auto.
+    - intros n es IH Hs. rewrite lit_sorted_call in Hs. rewrite cc_nm_call, !normj_call, cc_nm_call, !map_map. f_equal.
+      apply pj_map_ext_Forall. rewrite Forall_forall in *. rewrite forallb_forall in Hs. intros x Hx. auto.
+    - intros kd _. reflexivity.
+  Qed.
+
+  (* ---- compositions: both end in the common normal form nj (nm e), a fixed point of both ---- *)
+  Theorem text_json_text_nf : forall e, nm (nj (nm e)) = nj (nm e).
+  Proof. intros e. rewrite <- (normj_norm_commute (nm e) (lit_sorted_norm e)), norm_idempotent. reflexivity. Qed.
+
+  Theorem json_text_json_nf : forall e, lit_sorted e = true -> nj (nm (nj e)) = nj (nm e).
+  Proof. intros e Hs. rewrite <- (normj_norm_commute e Hs), (normj_idempotent print_ip). reflexivity. Qed.
+
+  Theorem common_nf_fixed : forall e, nm (nj (nm e)) = nj (nm e) /\ nj (nj (nm e)) = nj (nm e).
+  Proof. intros e. split; [apply text_json_text_nf | apply (normj_idempotent print_ip)]. Qed.
+
+  (* ---- the same for whole policies ---- *)
+  Lemma policy_conds_ext (f g : expr -> expr) (p : policy) :
+    Forall (fun c : bool * expr => f (snd c) = g (snd c)) (p_conds p) ->
+    map (fun c : bool * expr => (fst c, f (snd c))) (p_conds p) = map (fun c : bool * expr => (fst c, g (snd c))) (p_conds p).
+  Proof. intros HF. apply pj_map_ext_Forall. eapply Forall_impl; [|exact HF]. intros c Hc. cbn beta. rewrite Hc. reflexivity. Qed.
+
+  Lemma policy_lit_sorted_Forall (P : expr -> Prop) p :
+    (forall e, lit_sorted e = true -> P e) -> policy_lit_sorted p = true -> Forall (fun c : bool * expr => P (snd c)) (p_conds p).
+  Proof.
+    intros HP Hs. unfold policy_lit_sorted in Hs. rewrite forallb_forall in Hs. apply Forall_forall. intros c Hc. apply HP, Hs, Hc.
+  Qed.
+
+  Theorem policy_lit_sorted_norm : forall p, policy_lit_sorted (nmp p) = true.
+  Proof.
+    intros p. unfold policy_lit_sorted, norm_policy. cbn [p_conds]. apply forallb_forall. intros c Hc.
+    apply in_map_iff in Hc. destruct Hc as (c0 & <- & _). cbn [snd]. apply lit_sorted_norm.
+  Qed.
+
+  Theorem policy_normal_forms_commute : forall p, policy_lit_sorted p = true -> njp (nmp p) = nmp (njp p).
+  Proof.
+    intros p Hs. unfold norm_policy, normj_policy. cbn [p_effect p_principal p_action p_resource p_conds]. f_equal.
+    rewrite !map_map. cbn [fst snd]. apply (policy_conds_ext (fun e => nj (nm e)) (fun e => nm (nj e))).
+    apply (policy_lit_sorted_Forall (fun e => nj (nm e) = nm (nj e))); [apply normj_norm_commute | exact Hs].
+  Qed.
+
+  Theorem norm_policy_idempotent : forall p, nmp (nmp p) = nmp p.
+  Proof.
+    intros p. unfold norm_policy. cbn [p_effect p_principal p_action p_resource p_conds]. f_equal.
+    rewrite !map_map. cbn [fst snd]. apply (policy_conds_ext (fun e => nm (nm e)) nm).
+    apply Forall_forall. intros c _. apply norm_idempotent.
+  Qed.
+
+  Theorem normj_policy_idempotent : forall p, njp (njp p) = njp p.
+  Proof.
+    intros p. unfold normj_policy. cbn [p_effect p_principal p_action p_resource p_conds]. f_equal.
+    rewrite !map_map. cbn [fst snd]. apply (policy_conds_ext (fun e => nj (nj e)) nj).
+    apply Forall_forall. intros c _. apply (normj_idempotent print_ip).
+  Qed.
+
+  (* text -> JSON -> text and JSON -> text -> JSON, at the level of the normal forms the codecs compute *)
+  Theorem policy_text_json_text_nf : forall p, nmp (njp (nmp p)) = njp (nmp p).
+  Proof.
+    intros p. rewrite <- (policy_normal_forms_commute (nmp p) (policy_lit_sorted_norm p)), norm_policy_idempotent. reflexivity.
+  Qed.
+
+  Theorem policy_json_text_json_nf : forall p, policy_lit_sorted p = true -> njp (nmp (njp p)) = njp (nmp p).
+  Proof. intros p Hs. rewrite <- (policy_normal_forms_commute p Hs), normj_policy_idempotent. reflexivity. Qed.
+
+  Theorem policy_common_nf_fixed : forall p, nmp (njp (nmp p)) = njp (nmp p) /\ njp (njp (nmp p)) = njp (nmp p).
+  Proof. intros p. split; [apply policy_text_json_text_nf | apply normj_policy_idempotent]. Qed.
+
+  (* ------------------------------------------------------------------------------------------ *)
+  (* Well-formedness is carried along                                                             *)
+  (* ------------------------------------------------------------------------------------------ *)
+  Variable ip_ok : bool -> Z -> Z -> bool.
+  Hypothesis print_ip_plain : forall v6 a p, Forall (fun c => 32 <= c < 127 /\ c <> 34 /\ c <> 92) (print_ip v6 a p).
+
+  Notation eok := (expr_ok set_order).
+  Notation vok := (value_ok set_order).
+  Notation okj := (expr_okj ip_ok).
+
+  Lemma expr_ok_ext1 fn s : In fn ["decimal"; "datetime"; "duration"; "ip"]%string -> str_ok2 s = true -> eok (ext1 fn s) = true.
+  Proof.
+    intros Hfn Hs.
+    assert (E : eok (ext1 fn s) = str_ok2 s && true); [|rewrite E, Hs; reflexivity].
+    cbn [In] in Hfn. repeat (destruct Hfn as [<-|Hfn]; [reflexivity|]). destruct Hfn.
+  Qed.
+
+  Lemma expr_okj_ext1 fn s : In fn ["decimal"; "datetime"; "duration"; "ip"]%string -> okj (ext1 fn s) = true.
+  Proof. intros Hfn. cbn [In] in Hfn. repeat (destruct Hfn as [<-|Hfn]; [reflexivity|]). destruct Hfn. Qed.
+
+  Lemma print_ip_str_ok2 v6 a p : str_ok2 (print_ip v6 a p) = true.
+  Proof. apply plain_str_ok2. exact (print_ip_plain v6 a p). Qed.
+
+  Ltac fn_in := cbn [In]; repeat (first [left; reflexivity | right]).
+
+  (* ---- a renderable literal value, written out, is renderable again and encodable as JSON ---- *)
+  Lemma value_ok_norm_value : forall v, vok v = true -> eok (nv v) = true /\ okj (nv v) = true.
+  Proof.
+    apply (value_ind' (fun v => vok v = true -> eok (nv v) = true /\ okj (nv v) = true)).
+    - intros b H. split; [exact H | reflexivity].
+    - intros z H. split; exact H.
+    - intros s H. split; [exact H | reflexivity].
+    - intros ty id H. split; [exact H | reflexivity].
+    - intros l IH H. rewrite value_ok_set in H. apply andb_true_iff in H. destruct H as [_ H].
+      rewrite cc_nv_set, expr_ok_set, okj_set.
+      assert (HF : Forall (fun x => eok x = true /\ okj x = true) (map nv l)).
+      { apply Forall_forall. intros x Hx. apply in_map_iff in Hx. destruct Hx as (y & <- & Hy).
+        rewrite Forall_forall in IH. rewrite forallb_forall in H. auto. }
+      split; apply forallb_forall; intros x Hx; apply in_map_iff in Hx; destruct Hx as (i & <- & _);
+        apply (cc_nth_Forall (fun x => eok x = true /\ okj x = true) (map nv l) (ELit (VBool false)) HF); split; reflexivity.
+    - intros l IH H. rewrite value_ok_record in H. rewrite !andb_true_iff in H. destruct H as [[Hd Hk] Hv].
+      rewrite cc_nv_record, expr_ok_record, okj_record, distinct_keys_mapv, Hd.
+      rewrite (forallb_keys_mapv nv str_ok2), Hk. cbn [andb]. rewrite !forallb_vals_mapv.
+      rewrite Forall_forall in IH. rewrite forallb_forall in Hv.
+      split; apply forallb_forall; intros kv Hkv; apply (IH kv Hkv (Hv kv Hkv)).
+    - intros z _. split; [apply expr_ok_ext1; [fn_in | apply plain_str_ok2, print_decimal_plain] | apply expr_okj_ext1; fn_in].
+    - intros z _. split; [apply expr_ok_ext1; [fn_in | apply plain_str_ok2, print_datetime_plain] | apply expr_okj_ext1; fn_in].
+    - intros z _. split; [apply expr_ok_ext1; [fn_in | apply plain_str_ok2, print_duration_plain] | apply expr_okj_ext1; fn_in].
+    - intros v6 a p _. split; [apply expr_ok_ext1; [fn_in | apply print_ip_str_ok2] | apply expr_okj_ext1; fn_in].
+  Qed.
+
+  (* ---- what can be rendered stays renderable in text normal form, and that form can be encoded as JSON ---- *)
+  Theorem expr_ok_norm : forall e, eok e = true -> eok (nm e) = true /\ okj (nm e) = true.
+  Proof.
+    apply (expr_ind' (fun e => eok e = true -> eok (nm e) = true /\ okj (nm e) = true));
+      try (intros a b IHa IHb H; cbn [expr_ok] in H; apply andb_true_iff in H; destruct H as [Ha Hb];
+           destruct (IHa Ha) as [A1 A2]; destruct (IHb Hb) as [B1 B2]; cbn [norm expr_ok expr_okj]; rewrite A1, A2, B1, B2; split; reflexivity);
+      try (intros a IHa H; cbn [expr_ok] in H; destruct (IHa H) as [A1 A2]; cbn [norm expr_ok expr_okj]; split; assumption).
+    - intros v H. apply value_ok_norm_value. exact H.
+    - intros x _. split; reflexivity.
+    - intros a key IHa H. cbn [expr_ok] in H. apply andb_true_iff in H. destruct H as [Ha Hk].
+      destruct (IHa Ha) as [A1 A2]. cbn [norm expr_ok expr_okj]. rewrite A1, A2, Hk. split; reflexivity.
+    - intros a key IHa H. cbn [expr_ok] in H. apply andb_true_iff in H. destruct H as [Ha Hk].
+      destruct (IHa Ha) as [A1 A2]. cbn [norm expr_ok expr_okj]. rewrite A1, A2, Hk. split; reflexivity.
+    - intros a p IHa H. cbn [expr_ok] in H. apply andb_true_iff in H. destruct H as [Ha Hp].
+      destruct (IHa Ha) as [A1 A2]. cbn [norm expr_ok expr_okj]. rewrite A1, A2, Hp. split; [reflexivity|].
+      unfold pat_ok2 in Hp. apply andb_true_iff in Hp. destruct Hp as [_ Hp]. rewrite (text_pat_canon p Hp). reflexivity.
+    - intros a ty IHa H. cbn [expr_ok] in H. apply andb_true_iff in H. destruct H as [Ha Hk].
+      destruct (IHa Ha) as [A1 A2]. cbn [norm expr_ok expr_okj]. rewrite A1, A2, Hk. split; reflexivity.
+    - intros a ty b IHa IHb H. cbn [expr_ok] in H. rewrite !andb_true_iff in H. destruct H as [[Ha Hk] Hb].
+      destruct (IHa Ha) as [A1 A2]. destruct (IHb Hb) as [B1 B2]. cbn [norm expr_ok expr_okj]. rewrite A1, A2, B1, B2, Hk. split; reflexivity.
+    - intros c t f IHc IHt IHf H. cbn [expr_ok] in H. rewrite !andb_true_iff in H. destruct H as [[Hc Ht] Hf].
+      destruct (IHc Hc) as [C1 C2]. destruct (IHt Ht) as [T1 T2]. destruct (IHf Hf) as [F1 F2].
+      cbn [norm expr_ok expr_okj]. rewrite C1, C2, T1, T2, F1, F2. split; reflexivity.
+    - intros es IH H. rewrite expr_ok_set in H. rewrite cc_nm_set, expr_ok_set, okj_set.
+      rewrite Forall_forall in IH. rewrite forallb_forall in H.
+      split; apply forallb_forall; intros x Hx; apply in_map_iff in Hx; destruct Hx as (y & <- & Hy); apply (IH y Hy (H y Hy)).
+    - intros kvs IH H. rewrite expr_ok_record in H. rewrite !andb_true_iff in H. destruct H as [[Hd Hk] Hv].
+      rewrite cc_nm_record, expr_ok_record, okj_record, distinct_keys_mapv, Hd.
+      rewrite (forallb_keys_mapv nm str_ok2), Hk. cbn [andb]. rewrite !forallb_vals_mapv.
+      rewrite Forall_forall in IH. rewrite forallb_forall in Hv.
+      split; apply forallb_forall; intros kv Hkv; apply (IH kv Hkv (Hv kv Hkv)).
+    - intros n es IH H. rewrite expr_ok_call in H. rewrite cc_nm_call, expr_ok_call, okj_call.
+      assert (HF : forallb eok es = true -> forallb eok (map nm es) = true /\ forallb okj (map nm es) = true).
+      { intros Hes. rewrite Forall_forall in IH. rewrite forallb_forall in Hes.
+        split; apply forallb_forall; intros x Hx; apply in_map_iff in Hx; destruct Hx as (y & <- & Hy); apply (IH y Hy (Hes y Hy)). }
+      destruct (ext_lookup n) as [[ar [|]]|]; [| |discriminate].
+      + rewrite !andb_true_iff in H. destruct H as [[[Hb Hc] Ha] Hes]. destruct (HF Hes) as [E1 E2]. rewrite Hb, Hc, E1, E2.
+        destruct es; [discriminate|]. split; reflexivity.
+      + apply andb_true_iff in H. destruct H as [Hc Hes]. destruct (HF Hes) as [E1 E2]. rewrite Hc, E1, E2. split; reflexivity.
+    - intros kd H. discriminate.
+  Qed.
+
+  (* ---- what can be rendered stays renderable in JSON normal form ---- *)
+  Theorem expr_ok_normj : forall e, eok e = true -> eok (nj e) = true.
+  Proof.
+    apply (expr_ind' (fun e => eok e = true -> eok (nj e) = true));
+      try (intros a b IHa IHb H; cbn [expr_ok] in H; apply andb_true_iff in H; destruct H as [Ha Hb];
+           cbn [normj expr_ok]; rewrite (IHa Ha), (IHb Hb); reflexivity);
+      try (intros a IHa H; cbn [expr_ok] in H; cbn [normj expr_ok]; exact (IHa H)).
+    - intros v H. destruct v as [b|z|s|ty id|l|kvs|z|z|z|v6 a p]; try exact H.
+      + apply (expr_ok_ext1 "decimal"); [fn_in | apply plain_str_ok2, print_decimal_plain].
+      + apply (expr_ok_ext1 "ip"); [fn_in | apply print_ip_str_ok2].
+    - intros x _. reflexivity.
+    - intros a key IHa H. cbn [expr_ok] in H. apply andb_true_iff in H. destruct H as [Ha Hk].
+      cbn [normj expr_ok]. rewrite (IHa Ha), Hk. reflexivity.
+    - intros a key IHa H. cbn [expr_ok] in H. apply andb_true_iff in H. destruct H as [Ha Hk].
+      cbn [normj expr_ok]. rewrite (IHa Ha), Hk. reflexivity.
+    - intros a p IHa H. cbn [expr_ok] in H. apply andb_true_iff in H. destruct H as [Ha Hp].
+      cbn [normj expr_ok]. rewrite (IHa Ha). pose proof Hp as Hp2. unfold pat_ok2 in Hp2. apply andb_true_iff in Hp2.
+      destruct Hp2 as [_ Hp2]. rewrite (text_pat_norm p Hp2), Hp. reflexivity.
+    - intros a ty IHa H. cbn [expr_ok] in H. apply andb_true_iff in H. destruct H as [Ha Hk].
+      cbn [normj expr_ok]. rewrite (IHa Ha), Hk. reflexivity.
+    - intros a ty b IHa IHb H. cbn [expr_ok] in H. rewrite !andb_true_iff in H. destruct H as [[Ha Hk] Hb].
+      cbn [normj expr_ok]. rewrite (IHa Ha), (IHb Hb), Hk. reflexivity.
+    - intros c t f IHc IHt IHf H. cbn [expr_ok] in H. rewrite !andb_true_iff in H. destruct H as [[Hc Ht] Hf].
+      cbn [normj expr_ok]. rewrite (IHc Hc), (IHt Ht), (IHf Hf). reflexivity.
+    - intros es IH H. rewrite expr_ok_set in H. rewrite normj_set, expr_ok_set.
+      rewrite Forall_forall in IH. rewrite forallb_forall in H.
+      apply forallb_forall; intros x Hx; apply in_map_iff in Hx; destruct Hx as (y & <- & Hy); apply (IH y Hy (H y Hy)).
+    - intros kvs IH H. rewrite expr_ok_record in H. rewrite !andb_true_iff in H. destruct H as [[Hd Hk] Hv].
+      rewrite normj_record, expr_ok_record.
+      rewrite (distinct_keys_sorted _ (rec_of_list_sorted_gen _)). cbn [andb]. apply andb_true_iff. split.
+      + apply forallb_rec_of_list. rewrite (forallb_keys_mapv nj str_ok2). exact Hk.
+      + apply forallb_rec_of_list. rewrite forallb_vals_mapv.
+        rewrite Forall_forall in IH. rewrite forallb_forall in Hv. apply forallb_forall. intros kv Hkv. apply (IH kv Hkv (Hv kv Hkv)).
+    - intros n es IH H. rewrite expr_ok_call in H. rewrite normj_call, expr_ok_call.
+      assert (HF : forallb eok es = true -> forallb eok (map nj es) = true).
+      { intros Hes. rewrite Forall_forall in IH. rewrite forallb_forall in Hes.
+        apply forallb_forall; intros x Hx; apply in_map_iff in Hx; destruct Hx as (y & <- & Hy); apply (IH y Hy (Hes y Hy)). }
+      destruct (ext_lookup n) as [[ar [|]]|]; [| |discriminate].
+      + rewrite !andb_true_iff in H. destruct H as [[[Hb Hc] Ha] Hes]. rewrite Hb, Hc, (HF Hes).
+        destruct es; [discriminate|]. reflexivity.
+      + apply andb_true_iff in H. destruct H as [Hc Hes]. rewrite Hc, (HF Hes). reflexivity.
+    - intros kd H. discriminate.
+  Qed.
+
+  (* ---- whole policies ---- *)
+  Lemma annots_ok_rec_of_list a : annots_ok a = true -> annots_ok (rec_of_list a) = true.
+  Proof.
+    unfold annots_ok. rewrite !andb_true_iff. intros [_ H].
+    split; [apply distinct_keys_sorted, rec_of_list_sorted_gen | apply forallb_rec_of_list; exact H].
+  Qed.
+
+  Lemma conds_forallb (q q' : expr -> bool) (f : expr -> expr) (cs : list (bool * expr)) :
+    (forall e, q e = true -> q' (f e) = true) -> forallb (fun c : bool * expr => q (snd c)) cs = true ->
+    forallb (fun c : bool * expr => q' (snd c)) (map (fun c : bool * expr => (fst c, f (snd c))) cs) = true.
+  Proof.
+    intros Hq H. rewrite forallb_forall in H. apply forallb_forall. intros c Hc. apply in_map_iff in Hc.
+    destruct Hc as (c0 & <- & Hc0). cbn [snd]. apply Hq, H, Hc0.
+  Qed.
+
+  (* a renderable policy: its text normal form is renderable and can be encoded as JSON *)
+  Theorem policy_ok_norm : forall a p, policy_ok set_order a p = true ->
+    policy_ok set_order a (nmp p) = true /\ policy_okj ip_ok (nmp p) = true.
+  Proof.
+    intros a p. unfold policy_ok, policy_okj, norm_policy. cbn [p_principal p_action p_resource p_conds].
+    rewrite !andb_true_iff. intros [[[[Ha Hp] Hac] Hr] Hc].
+    rewrite Ha, Hp, Hac, Hr, (principal_scope_okj _ Hp), (action_scope_okj _ Hac), (principal_scope_okj _ Hr).
+    split; (split; [repeat split|]).
+    - apply (conds_forallb eok eok nm); [intros e He; apply (expr_ok_norm e He) | exact Hc].
+    - apply (conds_forallb eok okj nm); [intros e He; apply (expr_ok_norm e He) | exact Hc].
+  Qed.
+
+  (* ... and so is its JSON normal form, with the annotations as the JSON decoder returns them *)
+  Theorem policy_ok_normj : forall a p, policy_ok set_order a p = true -> policy_ok set_order (rec_of_list a) (njp p) = true.
+  Proof.
+    intros a p. unfold policy_ok, normj_policy. cbn [p_principal p_action p_resource p_conds].
+    rewrite !andb_true_iff. intros [[[[Ha Hp] Hac] Hr] Hc].
+    rewrite (annots_ok_rec_of_list a Ha), Hp, Hac, Hr. repeat split.
+    apply (conds_forallb eok eok nj); [apply expr_ok_normj | exact Hc].
+  Qed.
+
+  (* ---- the side conditions of the commutation theorem follow from either codec's well-formedness predicate ---- *)
+  Lemma okj_lit_sorted : forall e, okj e = true -> lit_sorted e = true.
+  Proof.
+    apply (expr_ind' (fun e => okj e = true -> lit_sorted e = true));
+      try (intros a b IHa IHb H; cbn [expr_okj] in H; apply andb_true_iff in H; destruct H as [Ha Hb];
+           cbn [lit_sorted]; rewrite (IHa Ha), (IHb Hb); reflexivity);
+      try (intros a IHa H; cbn [expr_okj] in H; cbn [lit_sorted]; exact (IHa H));
+      try (intros a x IHa H; cbn [expr_okj] in H; cbn [lit_sorted]; exact (IHa H)).
+    - intros v H. destruct v as [b|z|s|ty id|l|kvs|z|z|z|v6 a p]; try reflexivity;
+        cbn [lit_sorted]; apply wf_recs_sorted, (json_safe_wf ip_ok); exact H.
+    - intros x _. reflexivity.
+    - intros a p IHa H. cbn [expr_okj] in H. apply andb_true_iff in H. destruct H as [Ha _]. cbn [lit_sorted]. exact (IHa Ha).
+    - intros a ty b IHa IHb H. cbn [expr_okj] in H. apply andb_true_iff in H. destruct H as [Ha Hb].
+      cbn [lit_sorted]. rewrite (IHa Ha), (IHb Hb). reflexivity.
+    - intros c t f IHc IHt IHf H. cbn [expr_okj] in H. rewrite !andb_true_iff in H. destruct H as [[Hc Ht] Hf].
+      cbn [lit_sorted]. rewrite (IHc Hc), (IHt Ht), (IHf Hf). reflexivity.
+    - intros es IH H. rewrite okj_set in H. rewrite lit_sorted_set. rewrite Forall_forall in IH. rewrite forallb_forall in *. auto.
+    - intros kvs IH H. rewrite okj_record in H. rewrite lit_sorted_record. rewrite Forall_forall in IH. rewrite forallb_forall in *. auto.
+    - intros n es IH H. rewrite okj_call in H. destruct (ext_lookup n) as [[ar m]|]; [|discriminate].
+      apply andb_true_iff in H. destruct H as [_ H].
+      rewrite lit_sorted_call. rewrite Forall_forall in IH. rewrite forallb_forall in *. auto.
+    - intros kd H. discriminate.
+  Qed.
+
+  Lemma lit_ok_sorted_sem : forall e, lit_ok ip_ok e = true -> lit_sorted e = true /\ sem_okj ip_ok e = true.
+  Proof.
+    apply (expr_ind' (fun e => lit_ok ip_ok e = true -> lit_sorted e = true /\ sem_okj ip_ok e = true));
+      try (intros a b IHa IHb H; cbn [lit_ok] in H; apply andb_true_iff in H; destruct H as [Ha Hb];
+           destruct (IHa Ha) as [A1 A2]; destruct (IHb Hb) as [B1 B2]; cbn [lit_sorted sem_okj]; rewrite A1, A2, B1, B2; split; reflexivity);
+      try (intros a IHa H; cbn [lit_ok] in H; cbn [lit_sorted sem_okj]; exact (IHa H));
+      try (intros a x IHa H; cbn [lit_ok] in H; cbn [lit_sorted sem_okj]; exact (IHa H)).
+    - intros v H. cbn [lit_ok] in H. unfold value_lit_ok in H. apply andb_true_iff in H. destruct H as [Hw Hx].
+      split; [apply wf_recs_sorted; exact Hw|]. destruct v as [b|z|s|ty id|l|kvs|z|z|z|v6 a p]; try reflexivity; exact Hx.
+    - intros x _. split; reflexivity.
+    - intros a ty b IHa IHb H. cbn [lit_ok] in H. apply andb_true_iff in H. destruct H as [Ha Hb].
+      destruct (IHa Ha) as [A1 A2]. destruct (IHb Hb) as [B1 B2]. cbn [lit_sorted sem_okj]. rewrite A1, A2, B1, B2. split; reflexivity.
+    - intros c t f IHc IHt IHf H. cbn [lit_ok] in H. rewrite !andb_true_iff in H. destruct H as [[Hc Ht] Hf].
+      destruct (IHc Hc) as [C1 C2]. destruct (IHt Ht) as [T1 T2]. destruct (IHf Hf) as [F1 F2].
+      cbn [lit_sorted sem_okj]. rewrite C1, C2, T1, T2, F1, F2. split; reflexivity.
+    - intros es IH H. rewrite lit_ok_set in H. rewrite lit_sorted_set, sem_set. rewrite Forall_forall in IH. rewrite forallb_forall in H.
+      split; apply forallb_forall; intros x Hx; apply (IH x Hx (H x Hx)).
+    - intros kvs IH H. rewrite lit_ok_record in H. rewrite lit_sorted_record, sem_record. rewrite Forall_forall in IH.
+      rewrite forallb_forall in H. split; apply forallb_forall; intros x Hx; apply (IH x Hx (H x Hx)).
+    - intros n es IH H. rewrite lit_ok_call in H. rewrite lit_sorted_call, sem_call. rewrite Forall_forall in IH. rewrite forallb_forall in H.
+      split; apply forallb_forall; intros x Hx; apply (IH x Hx (H x Hx)).
+    - intros kd _. split; reflexivity.
+  Qed.
+
+  Lemma policy_okj_lit_sorted p : policy_okj ip_ok p = true -> policy_lit_sorted p = true.
+  Proof.
+    unfold policy_okj, policy_lit_sorted. rewrite !andb_true_iff. intros [_ H]. rewrite forallb_forall in *.
+    intros c Hc. apply okj_lit_sorted, H, Hc.
+  Qed.
+
+  Lemma policy_lit_ok_sorted p : policy_lit_ok ip_ok p = true -> policy_lit_sorted p = true.
+  Proof.
+    unfold policy_lit_ok, policy_lit_sorted. intros H. rewrite forallb_forall in *. intros c Hc. apply lit_ok_sorted_sem, H, Hc.
+  Qed.
+
+  (* ------------------------------------------------------------------------------------------ *)
+  (* The codecs themselves, composed                                                              *)
+  (* ------------------------------------------------------------------------------------------ *)
+  Variable ord : list json -> list json.
+  Hypothesis ord_id : forall l, ord l = l.
+  Hypothesis ip_roundtrip : forall v6 a p, ip_ok v6 a p = true -> parse_ip (print_ip v6 a p) = Some (v6, a, p).
+  Variables (is_printable is_gext : Z -> bool).
+
+  (* the text codec: the tokens of the rendering of (a, p) parse to (a', q) (C08_policy_roundtrip's conclusion) *)
+  Definition text_codec (a : list (str * str)) (p : policy) (a' : list (str * str)) (q : policy) : Prop :=
+    forall rest, rest <> [] -> exists f0, forall f, (f0 <= f)%nat ->
+      p_policy f (toks_of (policy_items is_printable is_gext set_order print_ip no_extra a p) ++ rest)
+      = POk {| pp_annots := a'; pp_pos := (0, 0, 0); pp_policy := q |} rest.
+  (* the JSON codec: decoding the encoding of (a, p) gives (a', q) (C09_policy_roundtrip's conclusion) *)
+  Definition json_codec (a : list (str * str)) (p : policy) (a' : list (str * str)) (q : policy) : Prop :=
+    dec_policy (enc_policy print_ip ord a p) = DOk (a', q).
+
+  Lemma text_codec_norm a p : policy_ok set_order a p = true -> text_codec a p a (nmp p).
+  Proof. intros H rest Hr. exact (parse_print_policy is_printable is_gext set_order print_ip no_extra print_ip_plain a p rest H Hr). Qed.
+
+  Lemma json_codec_normj a p : policy_okj ip_ok p = true -> json_codec a p (rec_of_list a) (njp p).
+  Proof. intros H. exact (dec_enc_policy print_ip ord ip_ok ip_roundtrip ord_id a p H). Qed.
+
+  (* the JSON codec applied to what the text codec returns *)
+  Corollary json_codec_after_text a p : policy_ok set_order a p = true -> json_codec a (nmp p) (rec_of_list a) (njp (nmp p)).
+  Proof. intros H. apply json_codec_normj. apply (policy_ok_norm a p H). Qed.
+
+  (* text -> JSON -> text: each step succeeds from policy_ok alone, the result is the common normal form njp (nmp p), which both
+     codecs then leave unchanged *)
+  Theorem text_json_text : forall a p, policy_ok set_order a p = true ->
+    text_codec a p a (nmp p) /\
+    json_codec a (nmp p) (rec_of_list a) (njp (nmp p)) /\
+    text_codec (rec_of_list a) (njp (nmp p)) (rec_of_list a) (njp (nmp p)) /\
+    json_codec (rec_of_list a) (njp (nmp p)) (rec_of_list a) (njp (nmp p)).
+  Proof.
+    intros a p H. destruct (policy_ok_norm a p H) as [H1 H2].
+    pose proof (policy_ok_normj a (nmp p) H1) as H3.
+    split; [apply text_codec_norm; exact H|]. split; [apply json_codec_normj; exact H2|]. split.
+    - pose proof (text_codec_norm _ _ H3) as T. rewrite policy_text_json_text_nf in T. exact T.
+    - destruct (policy_ok_norm _ _ H3) as [_ H4]. rewrite policy_text_json_text_nf in H4.
+      pose proof (json_codec_normj (rec_of_list a) _ H4) as J. rewrite rec_of_list_idem, normj_policy_idempotent in J. exact J.
+  Qed.
+
+  (* JSON -> text -> JSON: the same common normal form, from policy_okj (for the first encoding) and policy_ok (for the rendering);
+     the intermediate text result nmp (njp p) IS the common normal form *)
+  Theorem json_text_json : forall a p, policy_okj ip_ok p = true -> policy_ok set_order a p = true ->
+    json_codec a p (rec_of_list a) (njp p) /\
+    text_codec (rec_of_list a) (njp p) (rec_of_list a) (njp (nmp p)) /\
+    json_codec (rec_of_list a) (njp (nmp p)) (rec_of_list a) (njp (nmp p)) /\
+    njp (nmp p) = nmp (njp p).
+  Proof.
+    intros a p Hj H. pose proof (policy_okj_lit_sorted p Hj) as Hs.
+    pose proof (policy_normal_forms_commute p Hs) as EN.
+    split; [apply json_codec_normj; exact Hj|]. split; [|split; [|exact EN]].
+    - rewrite EN. apply text_codec_norm. apply policy_ok_normj. exact H.
+    - apply (text_json_text a p H).
+  Qed.
+
+  (* ------------------------------------------------------------------------------------------ *)
+  (* C. Every encoding authorizes identically                                                     *)
+  (* ------------------------------------------------------------------------------------------ *)
+  Hypothesis set_order_perm : forall l, Permutation (set_order l) (seq 0 (List.length l)).
+
+  Definition policy_sem_okj (p : policy) : bool := forallb (fun c : bool * expr => sem_okj ip_ok (snd c)) (p_conds p).
+
+  Lemma sem_okj_norm_value : forall v, sem_okj ip_ok (nv v) = true.
+  Proof.
+    apply (value_ind' (fun v => sem_okj ip_ok (nv v) = true)); try (intros; reflexivity).
+    - intros l IH. rewrite cc_nv_set, sem_set. apply forallb_forall. intros x Hx. apply in_map_iff in Hx.
+      destruct Hx as (i & <- & _). apply (cc_nth_Forall (fun x => sem_okj ip_ok x = true)); [|reflexivity].
+      apply Forall_forall. intros x Hx. apply in_map_iff in Hx. destruct Hx as (y & <- & Hy). rewrite Forall_forall in IH. auto.
+    - intros l IH. rewrite cc_nv_record, sem_record, forallb_vals_mapv. apply forallb_forall. rewrite Forall_forall in IH. exact IH.
+  Qed.
+
+  (* the text normal form has no decimal / ip literal VALUES left: the side condition of eval_normj holds for free *)
+  Lemma sem_okj_norm : forall e, sem_okj ip_ok (nm e) = true.
+  Proof.
+    apply (expr_ind' (fun e => sem_okj ip_ok (nm e) = true));
+      try (intros; cbn [norm sem_okj]; repeat (apply andb_true_iff; split); assumption).
+    - intros v. apply sem_okj_norm_value.
+    - intros x. reflexivity.
+    - intros es IH. rewrite cc_nm_set, sem_set. apply forallb_forall. intros x Hx. apply in_map_iff in Hx.
+      destruct Hx as (y & <- & Hy). rewrite Forall_forall in IH. auto.
+    - intros kvs IH. rewrite cc_nm_record, sem_record, forallb_vals_mapv. apply forallb_forall. rewrite Forall_forall in IH. exact IH.
+    - intros n es IH. rewrite cc_nm_call, sem_call. apply forallb_forall. intros x Hx. apply in_map_iff in Hx.
+      destruct Hx as (y & <- & Hy). rewrite Forall_forall in IH. auto.
+    - intros kd. reflexivity.
+  Qed.
+
+  Lemma policy_sem_okj_norm p : policy_sem_okj (nmp p) = true.
+  Proof.
+    unfold policy_sem_okj, norm_policy. cbn [p_conds]. apply forallb_forall. intros c Hc. apply in_map_iff in Hc.
+    destruct Hc as (c0 & <- & _). cbn [snd]. apply sem_okj_norm.
+  Qed.
+
+  Lemma policy_lit_ok_sem p : policy_lit_ok ip_ok p = true -> policy_sem_okj p = true.
+  Proof.
+    unfold policy_lit_ok, policy_sem_okj. intros H. rewrite forallb_forall in *. intros c Hc. apply lit_ok_sorted_sem, H, Hc.
+  Qed.
+
+  (* the policy-level form of eval_normj (C09_normal_form_same_meaning) *)
+  Theorem policy_normj_same_outcome : forall en p, policy_sem_okj p = true ->
+    bool_eval en (policy_to_expr (njp p)) = bool_eval en (policy_to_expr p).
+  Proof.
+    intros en p Hok. unfold bool_eval. apply bool_eval_cong. unfold policy_to_expr.
+    assert (HN : Forall2 (same_res en) (policy_nodes (njp p)) (policy_nodes p)).
+    { unfold policy_nodes, normj_policy. cbn [p_principal p_action p_resource p_conds].
+      apply Forall2_app; [apply same_res_refl_list|].
+      unfold policy_sem_okj in Hok. induction (p_conds p) as [|[w c] cs IH]; cbn [map]; [constructor|].
+      cbn [forallb snd] in Hok. apply andb_true_iff in Hok. destruct Hok as [Hc Hcs]. constructor; [|apply IH; exact Hcs].
+      cbn [fst snd]. unfold same_res. apply res_equiv_eq.
+      destruct w; cbn [eval]; rewrite (eval_normj print_ip ip_ok ip_roundtrip en c Hc); reflexivity. }
+    destruct HN as [|x y l l' Hxy Hl]; [apply res_equiv_refl|]. apply and_all_cong; assumption.
+  Qed.
+
+  (* the policy as written, as read back from text, as read back from JSON, and as read back through both codecs in either order:
+     one outcome (the same Boolean or the same error) in every well-formed environment *)
+  Theorem all_encodings_same_outcome : forall en p, norm_env_wf en -> policy_lit_ok ip_ok p = true ->
+    bool_eval en (policy_to_expr (nmp p)) = bool_eval en (policy_to_expr p) /\
+    bool_eval en (policy_to_expr (njp p)) = bool_eval en (policy_to_expr p) /\
+    bool_eval en (policy_to_expr (njp (nmp p))) = bool_eval en (policy_to_expr p) /\
+    bool_eval en (policy_to_expr (nmp (njp p))) = bool_eval en (policy_to_expr p).
+  Proof.
+    intros en p Hen Hok.
+    pose proof (policy_norm_same_outcome set_order set_order_perm print_ip ip_ok ip_roundtrip en p Hen Hok) as E1.
+    assert (E3 : bool_eval en (policy_to_expr (njp (nmp p))) = bool_eval en (policy_to_expr p)).
+    { rewrite (policy_normj_same_outcome en (nmp p) (policy_sem_okj_norm p)). exact E1. }
+    split; [exact E1|]. split; [apply policy_normj_same_outcome, policy_lit_ok_sem; exact Hok|]. split; [exact E3|].
+    rewrite <- (policy_normal_forms_commute p (policy_lit_ok_sorted p Hok)). exact E3.
+  Qed.
+
+  Corollary both_codecs_same_outcome : forall en p, norm_env_wf en -> policy_lit_ok ip_ok p = true ->
+    bool_eval en (policy_to_expr (njp (nmp p))) = bool_eval en (policy_to_expr p).
+  Proof. intros en p Hen Hok. apply (all_encodings_same_outcome en p Hen Hok). Qed.
+
+  Corollary both_codecs_same_outcome' : forall en p, norm_env_wf en -> policy_lit_ok ip_ok p = true ->
+    bool_eval en (policy_to_expr (nmp (njp p))) = bool_eval en (policy_to_expr p).
+  Proof. intros en p Hen Hok. apply (all_encodings_same_outcome en p Hen Hok). Qed.
+
+  (* ... and is satisfied by the same requests *)
+  Corollary all_encodings_same_sat : forall en p, norm_env_wf en -> policy_lit_ok ip_ok p = true ->
+    PartialProofs.sat en (nmp p) = PartialProofs.sat en p /\ PartialProofs.sat en (njp p) = PartialProofs.sat en p /\
+    PartialProofs.sat en (njp (nmp p)) = PartialProofs.sat en p /\ PartialProofs.sat en (nmp (njp p)) = PartialProofs.sat en p.
+  Proof.
+    intros en p Hen Hok. destruct (all_encodings_same_outcome en p Hen Hok) as (E1 & E2 & E3 & E4).
+    unfold PartialProofs.sat. rewrite E1, E2, E3, E4. repeat split.
+  Qed.
+End NormalForms.
+
+(* text -> JSON -> text needs nothing about net/netip's parser: the text normal form has no ip literal VALUE left to encode *)
+Corollary text_json_text_no_ip_hyp : forall set_order print_ip,
+  (forall v6 a p, Forall (fun c => 32 <= c < 127 /\ c <> 34 /\ c <> 92) (print_ip v6 a p)) ->
+  forall ord, (forall l, ord l = l) -> forall is_printable is_gext a p, policy_ok set_order a p = true ->
+    text_codec set_order print_ip is_printable is_gext a p a (norm_policy set_order print_ip p) /\
+    json_codec print_ip ord a (norm_policy set_order print_ip p) (rec_of_list a) (normj_policy print_ip (norm_policy set_order print_ip p)) /\
+    text_codec set_order print_ip is_printable is_gext (rec_of_list a) (normj_policy print_ip (norm_policy set_order print_ip p))
+               (rec_of_list a) (normj_policy print_ip (norm_policy set_order print_ip p)) /\
+    json_codec print_ip ord (rec_of_list a) (normj_policy print_ip (norm_policy set_order print_ip p))
+               (rec_of_list a) (normj_policy print_ip (norm_policy set_order print_ip p)).
+Proof.
+  intros so pip Hplain ord Hord ipr ig a p H.
+  apply (text_json_text so pip (fun _ _ _ => false) Hplain ord Hord); [|exact H].
+  intros v6 x y Hf. discriminate.
+Qed.
+
+(* ------------------------------------------------------------------------------------------ *)
+(* The side condition of the commutation theorem is needed (computed on the model)              *)
+(* ------------------------------------------------------------------------------------------ *)
+
+(* a literal record VALUE whose keys are not in order (renderable: expr_ok holds; not a Go map in iteration order: neither wf_value nor
+   json_safe): JSON sorts the entries the text normal form spells out, the text normal form of the JSON normal form keeps the order *)
+Definition cc_ex_e : expr := ELit (VRecord [([98], VLong 1); ([97], VLong 2)]).
+Example cc_ex_unsorted :
+  expr_ok nm_id_order cc_ex_e = true /\ lit_sorted cc_ex_e = false /\
+  normj nm_no_ip (norm nm_id_order nm_no_ip cc_ex_e) = ERecord [([97], ELit (VLong 2)); ([98], ELit (VLong 1))] /\
+  norm nm_id_order nm_no_ip (normj nm_no_ip cc_ex_e) = ERecord [([98], ELit (VLong 1)); ([97], ELit (VLong 2))].
+Proof. vm_compute. repeat split. Qed.
+
+(* ... while text -> JSON -> text still ends in the common normal form (text_json_text_nf needs no side condition) *)
+Example cc_ex_unsorted_tjt :
+  norm nm_id_order nm_no_ip (normj nm_no_ip (norm nm_id_order nm_no_ip cc_ex_e)) = normj nm_no_ip (norm nm_id_order nm_no_ip cc_ex_e).
+Proof. vm_compute. reflexivity. Qed.
+
+(* ids: a list that repeats an id encodes to a map with one entry (the last), so "the same ids" is as a set *)
+Example cc_ex_repeated_id :
+  dec_policy_set (enc_policy_set pj_no_ip pj_id [([98], ([], pj_pol SAll SAll SAll)); ([97], ([], pj_pol SAll SAll SAll)); ([98], ([], pj_pol (SIs [84]) SAll SAll))]) =
+  DOk [([97], ([], pj_pol SAll SAll SAll)); ([98], ([], pj_pol (SIs [84]) SAll SAll))].
+Proof. vm_compute. reflexivity. Qed.
+
+Print Assumptions dec_enc_policy_set.
+Print Assumptions dec_enc_policy_set_sorted.
+Print Assumptions dec_enc_policy_set_nodup.
+Print Assumptions dec_policy_set_total.
+Print Assumptions normj_norm_commute.
+Print Assumptions norm_idempotent.
+Print Assumptions policy_normal_forms_commute.
+Print Assumptions policy_text_json_text_nf.
+Print Assumptions policy_json_text_json_nf.
+Print Assumptions policy_common_nf_fixed.
+Print Assumptions expr_ok_norm.
+Print Assumptions expr_ok_normj.
+Print Assumptions policy_ok_norm.
+Print Assumptions policy_ok_normj.
+Print Assumptions text_json_text.
+Print Assumptions json_text_json.
+Print Assumptions text_json_text_no_ip_hyp.
+Print Assumptions policy_normj_same_outcome.
+Print Assumptions all_encodings_same_outcome.
+Print Assumptions all_encodings_same_sat.
